@@ -1,7 +1,7 @@
 #!/usr/bin/env python3
 """Re-runs every implemented check against every seeded change (in scratch copies of /repo) and
 updates meta.json's caught_by. Usage: reseed.py [id-prefix]"""
-import json, os, shutil, subprocess, sys, tempfile, glob
+import json, os, re, shutil, subprocess, sys, tempfile, glob
 from concurrent.futures import ThreadPoolExecutor
 pref = sys.argv[1] if len(sys.argv) > 1 else ""
 props = subprocess.run(["/verif/bin/fcheck", "-list"], capture_output=True, text=True).stdout.split()
@@ -15,11 +15,16 @@ def one(sd):
         if a.returncode != 0:
             return sid, meta["property"], None, "PATCH DOES NOT APPLY on current HEAD"
         caught = {}
-        for p in props:
-            c = subprocess.run(["/verif/bin/fcheck", "-repo", d, "-prop", p, "-no-evidence"], capture_output=True, text=True)
-            if c.returncode != 0:
-                lines = [l.strip() for l in c.stdout.splitlines() if l.startswith("  ") and ("VIOLATION" in l or "UNDECIDED" in l)]
-                caught[p] = [l[:240] for l in lines[:4]]
+        c = subprocess.run(["/verif/bin/fcheck", "-repo", d, "-all", "-no-evidence"], capture_output=True, text=True)
+        cur = []
+        for l in c.stdout.splitlines():
+            m = re.match(r"property=(C\d+) .* violations=(\d+)", l)
+            if m:
+                if int(m.group(2)) > 0:
+                    caught[m.group(1)] = [x[:240] for x in cur[:4]]
+                cur = []
+            elif l.startswith("  ") and ("VIOLATION" in l or "UNDECIDED" in l):
+                cur.append(l.strip())
         meta["caught_by"] = caught
         meta["caught_by_own_property_check"] = meta["property"] in caught
         json.dump(meta, open(os.path.join(sd, "meta.json"), "w"), indent=1)
